@@ -758,9 +758,25 @@ func (vc *VC) maybeDispatch(key string, sig *types.Signature) {
 		return
 	}
 	want := false
+	// `dispatch Iface.Method@T1@T2` imports the contracts of the listed
+	// implementers only
+	var only map[string]bool
 	for _, d := range vc.fc.Dispatch {
+		var lim []string
+		if at := strings.Index(d, "@"); at >= 0 {
+			lim = strings.Split(d[at+1:], "@")
+			d = d[:at]
+		}
 		if strings.HasSuffix(key, "."+d) || key == d {
 			want = true
+			if len(lim) > 0 {
+				if only == nil {
+					only = map[string]bool{}
+				}
+				for _, l := range lim {
+					only[l] = true
+				}
+			}
 		}
 	}
 	if !want || vc.dispatched[key] {
@@ -782,6 +798,9 @@ func (vc *VC) maybeDispatch(key string, sig *types.Signature) {
 	for _, T := range vc.w.implementers(iface, typeKey(ifaceT)) {
 		n, ok := derefNamed(T)
 		if !ok {
+			continue
+		}
+		if only != nil && !only[n.Obj().Name()] {
 			continue
 		}
 		obj, _, _ := types.LookupFieldOrMethod(T, true, n.Obj().Pkg(), name)
